@@ -700,7 +700,7 @@ def run_c14(ctx):
         t2 = gen.relayout(text, rng)
         if t2 is not None and rng.random() < 0.5:
             wf.append(ctx.case("relayout", t2, gen.DEFAULT_CFG))
-    ctx.run_stream(wf, units=["passes", "linescover", "parents", "eofline"])
+    ctx.run_stream(wf, units=["passes", "kernel", "linescover", "parents", "eofline"])
     inv = []
     texts = [s["text"] for s in gen.seeds()]
     for _ in range(ctx.n(1500, 30000)):
@@ -711,8 +711,9 @@ def run_c14(ctx):
         inv.append(ctx.case("directives", directive_heavy(rng, rng.randrange(2, 30)), gen.DEFAULT_CFG))
     for _ in range(ctx.n(100, 2000)):
         inv.append(ctx.case("bytes", gen.random_bytes_text(rng, rng.randrange(1, 60)), gen.DEFAULT_CFG))
-    ctx.run_stream(inv, units=["passes", "linescover"])
-    ctx.hypotheses["H-P3 (grammar oracle): lines of each pass are built from its pass indices only"] = "lines_cover evaluated on the real parse result of every case (valid and invalid)"
+    ctx.run_stream(inv, units=["passes", "kernel", "linescover"])
+    ctx.hypotheses["side conditions of C14_final_lines_cover: each pass consumed to its end; skip_token only skips compiler directives"] = "unit kernel on every case (valid and invalid): replays the hook's event log through the kernel model, compares with the real pass lines and the real final lines, evaluates both side conditions"
+    ctx.hypotheses["parent and Eof-line clauses (well-formed input): grammar facts"] = "extracted predicates parents_ok / eof_line_ok on the real parse result"
 
 
 def run_c04(ctx):
@@ -776,11 +777,12 @@ def run_c04(ctx):
 
 PROPS["C14"] = Spec(
     coq_targets=["theories/Properties/C14.v"], module="Properties.C14",
-    theorems=["C14_pass_sorted", "C14_passes_cover", "C14_single_identity_pass"],
+    theorems=["C14_pass_sorted", "C14_passes_cover", "C14_single_identity_pass", "C14_kernel_lines_wf", "C14_kernel_cover",
+              "C14_final_lines_wf", "C14_final_lines_cover", "C14_kernel_sites"],
     run=run_c14,
     rule="well-formed seeds and grammar programs (also relayouted): all four clauses; mutated seeds, token soup, directive-heavy and arbitrary-byte inputs: ordering/coverage clauses; distinct = distinct input",
-    explanation="Theorems over the model of directive_tree.rs (tied by diffing the passes of every case through a hook): every pass is strictly increasing over valid non-directive indices, passes cover every non-directive token, one identity pass without directives. The acceptance predicates lines_cover / parents_ok / eof_line_ok are defined in Coq and evaluated by extracted code on the real parse result of every case. Partial: the grammar and consolidate_pass_lines are not modelled yet, so 'every token is in a line' rests on the evaluated predicate, not on a theorem.",
-    assumptions=["H-P3 (grammar oracle)"],
+    explanation="Theorems for ANY grammar: the conditional-directive passes are fully modelled (sorted, covering, identity without directives); the parser's line-state kernel (next_token, skip_token, finish_logical_line, do_with_context, take_separators_on_last_line: proved by a generated inventory to be the only mutation sites) keeps every line strictly increasing and places no token twice for EVERY sequence of primitive events; composed with consolidation and the directive lines: every final line is non-empty, strictly increasing and in range, and every token of the file is in at least one line, under two side conditions (pass consumed; only compiler directives skipped) that are evaluated on every real parse. The kernel model is tied by replaying the hook's event log of every pass of every case and comparing with the real pass lines and final lines. The parent and Eof-line clauses are grammar facts, decided by extracted predicates on the real parse result of well-formed inputs.",
+    assumptions=["the two side conditions of C14_final_lines_cover (monitored)", "parent / Eof-line clauses: grammar oracle"],
 )
 PROPS["C04"] = Spec(
     coq_targets=["theories/Properties/C04.v"], module="Properties.C04",
